@@ -20,7 +20,7 @@ fn params(tier: Tier) -> ScriptParams {
         timeouts: vec![3000, 20000, 30000],
         big_jumps: false,
         settle_us: 60_000_000,
-        replay_weight: 1, vary_server_limits: false,
+        replay_weight: 1, vary_server_limits: false, stray_weight: 0,
     }
 }
 
